@@ -500,3 +500,75 @@ def fixtures_workload(s):
                 continue
             s.step(ro, mtext, {'fixture': (c, m)})
     s.hist['fixture_cases'] = idx
+
+
+# --------------------------------------------------------------------------
+# large running orders and long ID lists: 12-40 stories, 12-20 items, lists of
+# up to 12 IDs (anything that orders or indexes by position shows here, e.g.
+# "10" sorting before "9")
+
+def large_cases(s, n_cases, level='both'):
+    for i in range(n_cases):
+        if not s.mine(i):
+            continue
+        rng = s.rng('large', i)
+        n = rng.randint(12, 40)
+        S = ['L%d' % k for k in range(n)]
+        rng.shuffle(S)
+        big = rng.randrange(n)
+        stories = []
+        for k, nm in enumerate(S):
+            stories.append(gen.simple_story(nm, rng.randint(12, 20) if k == big else rng.randint(0, 2),
+                                            item_prefix='i', inter=rng.random() < 0.3))
+        ro_txt = B.ro_doc('RO', 1, stories, ed_start='2020-01-01T12:30:00', pretty=rng.random() < 0.5)
+        ro = s.load(ro_txt)
+        cur = ro_txt
+        ids = gen.Ids('G%d.' % i)
+        for step in range(rng.randint(6, 14)):
+            st = Abs(cur)
+            live = st.story_ids
+            k = rng.randint(2, min(12, len(live) - 1)) if len(live) > 3 else 1
+            pick = rng.sample(live, k) if len(live) >= k else list(live)
+            rest = [x for x in live if x not in pick]
+            bigst = st.story(S[big])
+            I = [x for x in (gen.item_ids(bigst) if bigst is not None else [])]
+            c = rng.random()
+            if level in ('both', 'story') and c < 0.5:
+                kind = rng.choice(['EAStoryMove', 'EAStoryDelete', 'roStoryDelete', 'EAStorySwap', 'roStoryMove',
+                                   'roStoryInsert', 'EAStoryInsert', 'roStoryReplace'])
+                if kind == 'EAStoryMove':
+                    kw = dict(ids=pick, target=rng.choice(rest + [B.BLANK]) if rest else B.BLANK)
+                elif kind in ('EAStoryDelete', 'roStoryDelete'):
+                    kw = dict(ids=pick[:rng.randint(1, len(pick))])
+                elif kind == 'EAStorySwap':
+                    kw = dict(ids=pick[:2]) if len(pick) >= 2 else dict(ids=live[:2])
+                elif kind == 'roStoryMove':
+                    kw = dict(ids=pick[:1], target=rng.choice(rest + [B.BLANK]) if rest else B.BLANK)
+                elif kind in ('roStoryInsert', 'EAStoryInsert'):
+                    kw = dict(target=rng.choice(live), carried=[gen.simple_story(ids.new(), 1) for _ in range(rng.randint(1, 12))])
+                else:
+                    kw = dict(target=rng.choice(live), carried=[gen.simple_story(ids.new(), 1) for _ in range(rng.randint(1, 12))])
+            else:
+                if len(I) < 4:
+                    kind, kw = 'roItemInsert', dict(story_ref=S[big], target=B.BLANK,
+                                                    carried=[B.item(ids.new(), 'x') for _ in range(12)])
+                else:
+                    kk = rng.randint(2, min(12, len(I) - 1))
+                    ip = rng.sample(I, kk)
+                    ir = [x for x in I if x not in ip]
+                    kind = rng.choice(['roItemMoveMultiple', 'EAItemMove', 'roItemDelete', 'EAItemDelete', 'EAItemSwap',
+                                       'roItemInsert', 'EAItemInsert', 'roItemReplace'])
+                    if kind in ('roItemMoveMultiple', 'EAItemMove'):
+                        kw = dict(story_ref=S[big], ids=ip, target=rng.choice(ir + [B.BLANK]) if ir else B.BLANK)
+                    elif kind in ('roItemDelete', 'EAItemDelete'):
+                        kw = dict(story_ref=S[big], ids=ip[:rng.randint(1, len(ip))])
+                    elif kind == 'EAItemSwap':
+                        kw = dict(story_ref=S[big], ids=ip[:2])
+                    else:
+                        kw = dict(story_ref=S[big], target=rng.choice(I),
+                                  carried=[B.item(ids.new(), 'x') for _ in range(rng.randint(1, 12))])
+            msg = B.msg_doc(kind, 100 + step, pretty=rng.random() < 0.5, **kw)
+            ro, err, v, ev = s.step(ro, msg, {'large': i, 'step': step})
+            if ev is not None and ev.get('post_xml'):
+                cur = ev['post_xml']
+    s.hist['large_cases_total'] = n_cases
